@@ -9,3 +9,5 @@ func TestC05(t *testing.T) { RunProp(t, propC05) }
 func TestC19(t *testing.T) { RunProp(t, propC19) }
 func TestC02(t *testing.T) { RunProp(t, propC02) }
 func TestC16(t *testing.T) { RunProp(t, propC16) }
+func TestC17(t *testing.T) { RunProp(t, propC17) }
+func TestC11(t *testing.T) { RunProp(t, propC11) }
